@@ -438,10 +438,12 @@ theorem hashprefix_cache_counterexample_ttl :
 
 /-! ## Custom-filter cache -/
 
-/-- **custom_rebuild_on_newer.** For every history of `Get` calls and evictions in which a profile's
-update time never goes back and identifies its rules (`Versioned`), the custom-filter storage always
-applies the rules of the configuration it was called with — exactly what it does without a cache. -/
-theorem custom_rebuild_on_newer (ops : List COp) (hv : Versioned [] ops) :
+/-- **custom_rebuild_on_change.** For every history of `Get` calls and evictions in which a profile's
+update time identifies its rules (`Versioned`: equal times ⇒ equal rules; the times may go back and
+forth), the custom-filter storage always applies the rules of the configuration it was called with —
+exactly what it does without a cache.  (The unfixed code needed the times never to go back, see
+`custom_time_goes_back_counterexample`.) -/
+theorem custom_rebuild_on_change (ops : List COp) (hv : Versioned [] ops) :
     CU.run Tbl.empty ops = ops.map cuFresh := by
   have key : ∀ (ops : List COp) (seen : List Conf) (s : CU), s.Inv seen → Versioned seen ops →
       CU.run s ops = ops.map cuFresh := by
@@ -487,9 +489,8 @@ theorem custom_rebuild_on_newer (ops : List COp) (hv : Versioned [] ops) :
               exact ih (c :: seen) _ hput hv.2
             · rename_i hlt
               obtain ⟨c', hm, h1, h2, h3⟩ := hi _ _ hc
-              have hle := hv.1 c' hm h1
-              have heq : c'.upd = c.upd := by rw [h2] at hle ⊢; omega
-              have hr : it.rules = c.rules := by rw [← h3]; exact hle.2 heq
+              have heq : c'.upd = c.upd := by rw [h2]; exact Decidable.not_not.mp hlt
+              have hr : it.rules = c.rules := by rw [← h3]; exact hv.1 c' hm h1 heq
               simp only [hr]
               congr 1
               exact ih (c :: seen) s hsame hv.2
@@ -497,23 +498,36 @@ theorem custom_rebuild_on_newer (ops : List COp) (hv : Versioned [] ops) :
             exact ih (c :: seen) _ hput hv.2
   exact key ops [] _ (by intro id it hc; simp [Tbl.empty] at hc) hv
 
-/-- Non-vacuity: two profiles, an update with a later time, an eviction, a disabled configuration. -/
+/-- Non-vacuity: two profiles, an update with a later time, one with an *earlier* time, a return to
+the first version, an eviction, a disabled configuration. -/
 example :
     let ops : List COp :=
       [.get ⟨"p1", 10, ["||a^"], true⟩, .get ⟨"p2", 10, ["||b^"], true⟩, .get ⟨"p1", 10, ["||a^"], true⟩,
-       .get ⟨"p1", 11, ["||c^"], true⟩, .evict "p2", .get ⟨"p2", 10, ["||b^"], true⟩,
-       .get ⟨"p1", 12, [], true⟩]
+       .get ⟨"p1", 11, ["||c^"], true⟩, .get ⟨"p1", 7, ["||d^"], true⟩, .get ⟨"p1", 10, ["||a^"], true⟩,
+       .evict "p2", .get ⟨"p2", 10, ["||b^"], true⟩, .get ⟨"p1", 12, [], true⟩]
     Versioned [] ops ∧
       CU.run Tbl.empty ops =
-        [some ["||a^"], some ["||b^"], some ["||a^"], some ["||c^"], none, some ["||b^"], none] := by
+        [some ["||a^"], some ["||b^"], some ["||a^"], some ["||c^"], some ["||d^"], some ["||a^"], none,
+         some ["||b^"], none] := by
   refine ⟨?_, by decide⟩
+  simp [Versioned]
+
+/-- **custom_time_goes_back_counterexample** (the defect repaired in round 5).  The unfixed storage
+(`item.updTime.Before(c.UpdateTime)`) kept serving the old engine when the new rules carried an
+*earlier* update time — which is what a synchronisation delivers after a restart from the cache file
+if the wall clock was set back in between; the fixed storage applies the caller's rules. -/
+theorem custom_time_goes_back_counterexample :
+    let ops : List COp := [.get ⟨"p1", 10, ["||a^"], true⟩, .get ⟨"p1", 7, ["||b^"], true⟩]
+    Versioned [] ops ∧ Old.cuRun Tbl.empty ops = [some ["||a^"], some ["||a^"]] ∧
+      CU.run Tbl.empty ops = [some ["||a^"], some ["||b^"]] ∧ ops.map cuFresh = [some ["||a^"], some ["||b^"]] := by
+  refine ⟨?_, by decide, by decide, by decide⟩
   simp [Versioned]
 
 /-- **custom_rebuild_any_schedule.** For every interleaving of `Get` calls (split into the cache
 lookup and the compile-and-insert part, any number of them overlapping, for the same or different
-profiles) and evictions in which update times identify versions and do not go back in the order of
-the calls: a `Get` that is answered from the cache gets exactly the rules of the configuration it was
-called with (and a `Get` that compiles gets its own rules by construction). -/
+profiles) and evictions in which update times identify versions (in whatever order they come): a
+`Get` that is answered from the cache gets exactly the rules of the configuration it was called with
+(and a `Get` that compiles gets its own rules by construction). -/
 theorem custom_rebuild_any_schedule (ops : List CSOp) (tid : Nat) (c : Conf)
     (hv : VersionedS [] (ops ++ [.get tid c])) (o : Option (List String)) :
     ((CUS.final CUS.init ops).step (.get tid c)).2 = some o → o = cuFresh (.get c) := by
@@ -539,9 +553,8 @@ theorem custom_rebuild_any_schedule (ops : List CSOp) (tid : Nat) (c : Conf)
           · rename_i hlt
             simp only [Option.some.injEq] at hout
             obtain ⟨c', hm, h1, h2, h3⟩ := hi.cache_ok _ _ hc
-            have hle := hv.1 c' hm h1
-            have heq : c'.upd = c.upd := by rw [h2] at hle ⊢; omega
-            have hr : it.rules = c.rules := by rw [← h3]; exact hle.2 heq
+            have heq : c'.upd = c.upd := by rw [h2]; exact Decidable.not_not.mp hlt
+            have hr : it.rules = c.rules := by rw [← h3]; exact hv.1 c' hm h1 heq
             simp [hd, ← hout, hr]
         · simp at hout
     | cons op ops ih =>
@@ -561,7 +574,7 @@ theorem custom_rebuild_any_schedule (ops : List CSOp) (tid : Nat) (c : Conf)
 
 /-- Non-vacuity: two overlapping `Get`s for the same profile — one with the old, one with the new
 configuration — finish in the "wrong" order, so the older engine overwrites the newer one; the next
-`Get` with the new configuration still gets the new rules. -/
+`Get` with the new configuration still gets the new rules (it compiles them again). -/
 example :
     let old : Conf := ⟨"p1", 10, ["||a^"], true⟩
     let new : Conf := ⟨"p1", 11, ["||b^"], true⟩
@@ -586,23 +599,122 @@ every history of rule edits at the backend, full and incremental synchronisation
 cache file, requests and evictions, every request is answered with the rules `profiledb` holds for its
 profile at that moment — exactly as if the custom-filter cache were emptied before every request —
 provided `Profiles` stamps the profiles of a later call strictly later than those of an earlier one,
-whatever sync time was requested (`StrictStamp`; `time.Now()` does, see `stampNow_strict`). -/
-theorem custom_sync_no_stale (stamp : Stamp) (hs : StrictStamp stamp) (ops : List YOp) :
+whatever sync time was requested (`StrictStamp`; `time.Now()` does, see `stampNow_strict`) and the
+wall clock is not set back across a restart (`NoSetBack`; for histories with set-backs see
+`custom_sync_no_stale_clock_steps`). -/
+theorem custom_sync_no_stale (stamp : Stamp) (hs : StrictStamp stamp) (ops : List YOp) (hb : NoSetBack ops) :
     Sync.run stamp Sync.init ops = Sync.runFresh stamp Sync.init ops := by
-  have key : ∀ (ops : List YOp) (s : Sync), s.Inv stamp → Sync.run stamp s ops = Sync.runFresh stamp s ops := by
+  have key : ∀ (ops : List YOp) (s : Sync), NoSetBack ops → s.Inv stamp →
+      Sync.run stamp s ops = Sync.runFresh stamp s ops := by
     intro ops
     induction ops with
-    | nil => intro _ _; rfl
+    | nil => intro _ _ _; rfl
     | cons op ops ih =>
-      intro s hi
-      have hn := ih _ (Sync.step_inv hs hi op)
+      intro s hb hi
+      have hn := ih _ (NoSetBack.head hb).2 (Sync.step_inv hs hi op (NoSetBack.head hb).1)
       cases op with
       | query id => simp only [Sync.run, Sync.runFresh, Sync.query_out hi id, hn]
       | change id rules dt => simp only [Sync.run, Sync.runFresh, hn]; rfl
       | sync full dt => simp only [Sync.run, Sync.runFresh, hn]; rfl
-      | restart => simp only [Sync.run, Sync.runFresh, hn]; rfl
+      | restart back => simp only [Sync.run, Sync.runFresh, hn]; rfl
       | evict id => simp only [Sync.run, Sync.runFresh, hn]; rfl
-  exact key ops Sync.init (Sync.init_inv stamp)
+  exact key ops Sync.init hb (Sync.init_inv stamp)
+
+/-- **custom_sync_no_stale_clock_steps** (round 5).  The same for *every* history, including restarts
+across which the wall clock is set back by any amount, and for every stamping function whatsoever:
+every request is answered with the rules `profiledb` holds for its profile at that moment, provided
+only that no synchronisation stamps its profiles with a value that is still held somewhere
+(`StampsFresh` — with a clock that went back: no nanosecond reading of the new process coincides with
+one of the old process).  The unfixed code failed here for every set-back that is longer than the time
+to the next synchronisation (`custom_sync_clock_back_counterexample`). -/
+theorem custom_sync_no_stale_clock_steps (stamp : Stamp) (ops : List YOp) (hf : StampsFresh stamp Sync.init ops) :
+    Sync.run stamp Sync.init ops = Sync.runFresh stamp Sync.init ops := by
+  have key : ∀ (ops : List YOp) (s : Sync), StampsFresh stamp s ops → s.InvEq →
+      Sync.run stamp s ops = Sync.runFresh stamp s ops := by
+    intro ops
+    induction ops with
+    | nil => intro _ _ _; rfl
+    | cons op ops ih =>
+      intro s hf hi
+      cases op with
+      | query id =>
+        have hn := ih _ (by simpa only [StampsFresh] using hf)
+          (Sync.step_invEq hi (.query id) (fun _ _ h => by cases h))
+        simp only [Sync.run, Sync.runFresh, Sync.query_out_eq hi id, hn]
+      | change id rules dt =>
+        have hn := ih _ (by simpa only [StampsFresh] using hf)
+          (Sync.step_invEq hi (.change id rules dt) (fun _ _ h => by cases h))
+        simp only [Sync.run, Sync.runFresh, hn]; rfl
+      | sync full dt =>
+        simp only [StampsFresh] at hf
+        have hn := ih _ hf.2 (Sync.step_invEq hi (.sync full dt) (fun f d h id it hc => by
+          cases h
+          exact hf.1 it.upd (Or.inr (Or.inr ⟨id, it, hc, rfl⟩))))
+        simp only [Sync.run, Sync.runFresh, hn]; rfl
+      | restart back =>
+        have hn := ih _ (by simpa only [StampsFresh] using hf)
+          (Sync.step_invEq hi (.restart back) (fun _ _ h => by cases h))
+        simp only [Sync.run, Sync.runFresh, hn]; rfl
+      | evict id =>
+        have hn := ih _ (by simpa only [StampsFresh] using hf)
+          (Sync.step_invEq hi (.evict id) (fun _ _ h => by cases h))
+        simp only [Sync.run, Sync.runFresh, hn]; rfl
+  exact key ops Sync.init hf Sync.init_invEq
+
+/-- The history of the defect: rules `a` delivered and written to the cache file, rules `b` at the
+backend, restart with the clock five ticks back, a request (compiles `a` under the stamp of the file),
+an incremental synchronisation that delivers `b` under an *earlier* stamp, a request. -/
+def clockBackHistory : List YOp :=
+  [.change "p1" ["||a^"] 0, .sync true 0, .change "p1" ["||b^"] 0, .restart 5, .query "p1", .sync false 0, .query "p1"]
+
+/-- Non-vacuity of `StampsFresh` with a real set-back: the history of the defect satisfies it (the
+stamp held everywhere is 2, the synchronisation after the restart stamps with −2). -/
+example : StampsFresh stampNow Sync.init clockBackHistory := by
+  simp only [clockBackHistory, StampsFresh]
+  refine ⟨?_, ?_, trivial⟩
+  · intro x h
+    rcases h with ⟨id, c, h, _⟩ | ⟨id, c, h, _⟩ | ⟨id, it, h, _⟩ <;> simp [Sync.step, Sync.init, Tbl.empty] at h
+  · intro x h
+    rcases h with ⟨id, c, h, hx⟩ | ⟨id, c, h, hx⟩ | ⟨id, it, h, hx⟩ <;>
+      simp [Sync.step, Sync.init, Tbl.empty, delivered, confOf, stampNow, CU.step, Tbl.put] at h ⊢
+    · split at h
+      · rename_i p hp
+        simp only [Option.some.injEq] at h
+        subst h; subst hx; simp
+      · simp at h
+    · split at h
+      · rename_i p hp
+        simp only [Option.some.injEq] at h
+        subst h; subst hx; simp
+      · simp at h
+    · obtain ⟨_, h2⟩ := h
+      subst h2; subst hx; simp
+
+/-- **custom_sync_clock_back_counterexample** (the defect repaired in round 5, at the level of the
+pipeline; found on the real code by the conv campaign with a cache file whose stamps are ahead of the
+local clock).  With the unfixed storage the last request is still filtered with rules `a`; the fixed
+one applies `b`, as the uncached run does; the history satisfies `StampsFresh` (and so is a
+non-vacuity witness of `custom_sync_no_stale_clock_steps` with a real set-back). -/
+theorem custom_sync_clock_back_counterexample :
+    Old.syncRun stampNow Sync.init clockBackHistory =
+      [none, none, none, none, some ["||a^"], none, some ["||a^"]] ∧
+    Sync.run stampNow Sync.init clockBackHistory =
+      [none, none, none, none, some ["||a^"], none, some ["||b^"]] ∧
+    Sync.runFresh stampNow Sync.init clockBackHistory =
+      [none, none, none, none, some ["||a^"], none, some ["||b^"]] ∧
+    ¬ NoSetBack clockBackHistory := by
+  refine ⟨by decide, by decide, by decide, ?_⟩
+  simp [clockBackHistory, NoSetBack]
+
+/-- **custom_sync_stamp_coincidence_counterexample.** `StampsFresh` is necessary for the fixed code:
+if the clock is set back by exactly the amount that makes the next synchronisation read the very
+value the cache file holds, the new rules arrive under the old stamp and the old engine is served. -/
+theorem custom_sync_stamp_coincidence_counterexample :
+    Sync.run stampNow Sync.init
+        [.change "p1" ["||a^"] 0, .sync true 0, .change "p1" ["||b^"] 0, .restart 1, .query "p1", .sync false 0, .query "p1"] ≠
+      Sync.runFresh stampNow Sync.init
+        [.change "p1" ["||a^"] 0, .sync true 0, .change "p1" ["||b^"] 0, .restart 1, .query "p1", .sync false 0, .query "p1"] := by
+  decide
 
 /-- The stamp of the code, `time.Now()`, is strict. -/
 theorem stampNow_strict : StrictStamp stampNow := by
@@ -610,15 +722,15 @@ theorem stampNow_strict : StrictStamp stampNow := by
   exact h
 
 /-- **custom_sync_no_stale_now.** `custom_sync_no_stale` for the stamp the code uses. -/
-theorem custom_sync_no_stale_now (ops : List YOp) :
+theorem custom_sync_no_stale_now (ops : List YOp) (hb : NoSetBack ops) :
     Sync.run stampNow Sync.init ops = Sync.runFresh stampNow Sync.init ops :=
-  custom_sync_no_stale stampNow stampNow_strict ops
+  custom_sync_no_stale stampNow stampNow_strict ops hb
 
 /-- **custom_full_sync_installs_backend_rules.** After any history, a full synchronisation puts the
 backend's current rules of every profile in force: the next request of the profile is filtered with
 them (and with nothing when the backend has no rules for it), whatever the cache held. -/
 theorem custom_full_sync_installs_backend_rules (stamp : Stamp) (hs : StrictStamp stamp) (ops : List YOp)
-    (dt : Nat) (id : String) :
+    (hb : NoSetBack ops) (dt : Nat) (id : String) :
     ((Sync.final stamp Sync.init (ops ++ [.sync true dt])).step stamp (.query id)).2 =
       backendRules (Sync.final stamp Sync.init ops).backend id := by
   have hfin : ∀ (ops : List YOp) (s : Sync), Sync.final stamp s (ops ++ [.sync true dt]) =
@@ -627,7 +739,8 @@ theorem custom_full_sync_installs_backend_rules (stamp : Stamp) (hs : StrictStam
     induction ops with
     | nil => intro s; rfl
     | cons op ops ih => intro s; simp only [List.cons_append, Sync.final]; exact ih _
-  have hi := Sync.final_inv hs (ops ++ [.sync true dt]) (Sync.init_inv stamp)
+  have hi := Sync.final_inv hs (ops ++ [.sync true dt]) (NoSetBack.append hb (by simp [NoSetBack]))
+    (Sync.init_inv stamp)
   rw [Sync.query_out hi, hfin]
   generalize Sync.final stamp Sync.init ops = s
   simp only [Sync.fresh, Sync.step, backendRules, delivered, Bool.true_or, Bool.and_true, if_true]
@@ -653,7 +766,7 @@ example :
       [.change "p1" ["||a^"] 0, .change "p2" ["||x^"] 0, .sync true 0, .query "p1", .query "p2",
        .change "p1" ["||b^"] 0, .query "p1", .sync false 0, .query "p1", .query "p2",
        .change "p1" ["||c^"] 5, .change "p2" [] 0, .sync true 3, .query "p1", .query "p2",
-       .change "p1" ["||d^"] 0, .sync false 0, .query "p1", .restart, .query "p1", .sync false 0, .query "p1"] =
+       .change "p1" ["||d^"] 0, .sync false 0, .query "p1", .restart 0, .query "p1", .sync false 0, .query "p1"] =
       [none, none, none, some ["||a^"], some ["||x^"],
        none, some ["||a^"], none, some ["||b^"], some ["||x^"],
        none, none, none, some ["||c^"], none,
@@ -700,10 +813,14 @@ theorem custom_sync_coarse_stamp_counterexample :
 #print axioms hashprefix_unguarded_stale_counterexample
 #print axioms hashprefix_cache_counterexample_rcode
 #print axioms hashprefix_cache_counterexample_ttl
-#print axioms custom_rebuild_on_newer
+#print axioms custom_rebuild_on_change
+#print axioms custom_time_goes_back_counterexample
 #print axioms custom_rebuild_any_schedule
 #print axioms custom_same_time_counterexample
 #print axioms custom_sync_no_stale
+#print axioms custom_sync_no_stale_clock_steps
+#print axioms custom_sync_clock_back_counterexample
+#print axioms custom_sync_stamp_coincidence_counterexample
 #print axioms stampNow_strict
 #print axioms custom_sync_no_stale_now
 #print axioms custom_full_sync_installs_backend_rules
